@@ -44,7 +44,7 @@ def _corrupt(evs):
 
 
 def plans(tier):
-    return progcheck.standard_plans(tier)
+    return progcheck.standard_plans(tier) + [("d4-grid-contract", 4, 1), ("d2-blockfirst", 4 if tier == "quick" else 16, 1), ("d1-diamond", 2 if tier == "quick" else 8, 1)]
 
 
 def accept(v):
@@ -56,6 +56,12 @@ def accept(v):
 def run(chk):
     rd = tlc.new_rundir("C02")
     try:
+        from ..modelcheck import add_models
+
+        # design level: the named rewrite rules of Rewrites.tla preserve the denotation on every term of depth <= 2 (and the
+        # wrong-axis variants are refuted)
+        add_models(chk, ["Rewrites:sound-2d", "Rewrites:transpose-axis-mutant", "Rewrites:reduce-axis-mutant"]
+                   + (["Rewrites:sound-3d"] if chk.tier != "quick" else []))
         progcheck.run_plans(chk, rd, plans(chk.tier), OBS, opts={"no_compute": True}, selftest=_corrupt, accept_verdict=accept)
         chk.cov["exhaustive"] = True
         chk.cov["rule"] = ("every collection of every enumerated behaviour of ArrayProgram.tla (corpora in parts) x chunk-grid variants: one "
